@@ -13,7 +13,7 @@ import (
 func init() {
 	register(&Check{
 		ID:     "C10",
-		Rule:   "moments: every moment from the Xiaohan instant of the base year (1900-01-06 02:03:57 for the default) to 31 December of the clock's year x the 13 slot entries (00:00, 01:00, 03:00, ..., 23:00) x day-boundary convention {1,2} (thorough: all days; quick: 1900, 1984, the last 2 years), plus for every Jie instant t in the whole span the moments {t-1s, t, start of t's slot, end of t's slot}; base years {1, 1600, 1984, 2000} on a stride of the 1984..now span; and for base years B in {900, 1200, 1500, 1582, 1583, 1700, 1900, 1984, 2000, now} the pillars of every moment from 20 December of B-1 to 10 January of B (soundness clauses only: what is returned has the pillars, is not before B, is in order); and all base years now-k, k = 0..119 (every residue modulo 60) with moments of the current year, the year before and the base year. For each moment the four pillars are read from EightChar under the convention and fed to the reverse lookup; oracle: some returned moment lies on the same day in the same two-hour slot (23:00-00:59 is one slot under convention 1), every returned moment converts forward to exactly those pillars under that convention and is not before the base year, and the list is strictly increasing. non-trivial = moments whose slot contains a Jie instant, rat-slot moments, Lichun-day moments, and non-default base years",
+		Rule:   "moments: every moment from the Xiaohan instant of the base year (1900-01-06 02:03:57 for the default) to 31 December of the clock's year x the 13 slot entries (00:00, 01:00, 03:00, ..., 23:00) x day-boundary convention {1,2} (thorough: all days; quick: 1900, 1984, the last 2 years), plus for every Jie instant t in the whole span the moments {t-1s, t, start of t's slot, end of t's slot}; base years {1, 1600, 1984, 2000} on a stride of the 1984..now span; and for base years B in {900, 1200, 1500, 1582, 1583, 1700, 1900, 1984, 2000, now} the pillars of every moment from 20 December of B-1 to 10 January of B (soundness clauses only: what is returned has the pillars, is not before B, is in order); and all base years now-k, k = 0..119 (every residue modulo 60) with moments of the current year, the year before and the base year; and, with base year 1, the moments {t-1s, t, slot start, slot end} of every Jie instant of the years 2..1899 (quick: every thirtieth year). For each moment the four pillars are read from EightChar under the convention and fed to the reverse lookup; oracle: some returned moment lies on the same day in the same two-hour slot (23:00-00:59 is one slot under convention 1), every returned moment converts forward to exactly those pillars under that convention and is not before the base year, and the list is strictly increasing. non-trivial = moments whose slot contains a Jie instant, rat-slot moments, Lichun-day moments, and non-default base years",
 		Assume: []string{"the wall clock's year is read once at start and once at the end of each worker; a roll-over discards the last year and marks the run inexhaustive", "forward conversion (EightChar) is taken as given here; its correctness is C05's subject"},
 		Shards: func(tier string, seed int64) []Shard {
 			now := time.Now().Local().Year()
@@ -29,6 +29,13 @@ func init() {
 				out = append(out, Shard{Kind: "edge", Arg: fmt.Sprint(by), Tier: tier, Seed: seed})
 			}
 			out = append(out, Shard{Kind: "residues", Arg: fmt.Sprint(now), Tier: tier, Seed: seed})
+			var early [][2]int
+			for y := 2; y <= 1899; y++ {
+				if tier == "thorough" || y%30 == int(seed%30) {
+					early = append(early, [2]int{y, y})
+				}
+			}
+			out = append(out, splitRanges(toRangesPairs(early), 24, Shard{Kind: "jieearly", Tier: tier, Seed: seed})...)
 			return out
 		},
 		Run:           runC10,
@@ -223,9 +230,15 @@ func runC10(w *W) {
 				w.Sample(map[string]interface{}{"day": d.Ymd, "lookups": 26})
 			}
 		})
-	case "jie":
+	case "jie", "jieearly":
+		// "jieearly": the Jie instants of years 2..1899 with base year 1 (rounds before the queried one exist in every
+		// era, so whatever an earlier round leaves behind must not affect a later one)
+		jieBase := 0
+		if w.Shard.Kind == "jieearly" {
+			jieBase = 1
+		}
 		sweepDays(w, "C10", func(d *Day, prev *Day) {
-			if d.J < first {
+			if jieBase == 0 && d.J < first {
 				return
 			}
 			terms := termsOf(d.L())
@@ -251,7 +264,7 @@ func runC10(w *W) {
 				}
 				for _, t := range ts {
 					for sect := 1; sect <= 2; sect++ {
-						c10Check(w, d, t, sect, 0, terms)
+						c10Check(w, d, t, sect, jieBase, terms)
 					}
 				}
 				w.Sample(map[string]interface{}{"jie": tm.Key, "instant": tm.S.ToYmdHms(), "moments": len(ts)})
